@@ -8,7 +8,7 @@ Judgement    |printed value - value| <= q/2 and |printed error - error| <= q/2, 
              float concerned (the float is not a decimal: scaling it by a power of ten and rounding the product can
              differ from rounding the exact number by that much, not more);
              the error shows `significance` digits: 10^(s-1) <= error/q <= 10^s (the upper end only by rounding
-             carry), unless no decimals are printed (q = 1, integer floor), where only the lower bound applies.
+             carry, i.e. only when the exact error is below 10^s units), unless no decimals are printed (q = 1, integer floor), where only the lower bound applies.
 All arithmetic on decimal.Decimal built from the exact binary value of the floats (Decimal(float) is exact).
 """
 import re
@@ -53,9 +53,11 @@ def parse(s):
     return p
 
 
-def judge(s, value, dvalue, significance, slack_ulp=4):
+def judge(s, value, dvalue, significance, slack_ulp=4, value_ulp=None, dvalue_ulp=None):
     """List of (tag, detail) describing every way in which the string s fails to denote (value, dvalue) rounded
-    to `significance` digits of the error.  Empty list = the string is right."""
+    to `significance` digits of the error.  Empty list = the string is right.
+    value_ulp / dvalue_ulp: spacing of the floating-point type the number was held in (default: double precision);
+    a float32 number scaled and rounded in float32 arithmetic can be off by that many of *its* ulps."""
     p = parse(s)
     if isinstance(p, str):
         return [(p, {'string': s})]
@@ -68,11 +70,11 @@ def judge(s, value, dvalue, significance, slack_ulp=4):
         dv = Decimal(dvalue)
         v = Decimal(value)
         de = abs(p.error - dv)
-        if de > half + slack_ulp * Decimal(math.ulp(dvalue)):
+        if de > half + slack_ulp * Decimal(math.ulp(dvalue) if dvalue_ulp is None else float(dvalue_ulp)):
             out.append(('error-not-within-half-a-unit-of-the-last-digit', {'string': s, 'printed_error': str(p.error), 'error': repr(dvalue), 'unit': str(p.q),
                                                                            'deviation_in_units': float(de / p.q)}))
         dvv = abs(p.value - v)
-        if dvv > half + slack_ulp * Decimal(math.ulp(value)):
+        if dvv > half + slack_ulp * Decimal(math.ulp(value) if value_ulp is None else float(value_ulp)):
             out.append(('value-not-within-half-a-unit-of-the-last-digit', {'string': s, 'printed_value': str(p.value), 'value': repr(value), 'unit': str(p.q),
                                                                            'deviation_in_units': float(dvv / p.q)}))
         lo = Decimal(10) ** (significance - 1)
@@ -80,6 +82,11 @@ def judge(s, value, dvalue, significance, slack_ulp=4):
         if p.nd > 0:
             if not (lo <= p.units <= hi):
                 out.append(('error-digits-differ-from-significance', {'string': s, 'error_in_units': str(p.units), 'significance': significance}))
+            elif p.units == hi and not dv < hi * p.q:
+                # 10^s units are only legitimate as a rounding carry of an error below 10^s units; an error that IS 10^s units
+                # (exactly a power of ten) printed like this shows one digit too many
+                out.append(('error-digits-differ-from-significance', {'string': s, 'error_in_units': str(p.units), 'significance': significance,
+                                                                      'note': 'error is not below 10^significance units: no rounding carry'}))
         elif p.units < lo:
             out.append(('error-digits-differ-from-significance', {'string': s, 'error_in_units': str(p.units), 'significance': significance, 'note': 'integer floor'}))
         neg = value < 0
